@@ -64,6 +64,7 @@ type Result struct {
 	AllHash   string            `json:"all_hash,omitempty"`
 	Deadlocks int               `json:"deadlocks"`
 	Known     map[string]int    `json:"known,omitempty"`
+	OutHash   string            `json:"out_hash,omitempty"`
 }
 
 type ReplayFile struct {
@@ -184,6 +185,15 @@ replace %s => %s
 	if err != nil {
 		die(2, "copy scen: %v %s", err, out)
 	}
+	// back end B lives in its own module: testing/synctest needs the go1.26.8 toolchain and the
+	// timer semantics that come with a go >= 1.23 main module
+	bdir := filepath.Join(scratch, "b")
+	must(os.MkdirAll(filepath.Join(bdir, "scen"), 0755))
+	must(os.WriteFile(filepath.Join(bdir, "go.mod"), []byte(strings.Replace(gomod, "go 1.22.0", "go 1.25.0", 1)), 0644))
+	must(os.WriteFile(filepath.Join(bdir, "go.sum"), sum, 0644))
+	if out, err := run(verifDir, goEnv, "cp", "-r", filepath.Join(verifDir, "scen", "s3"), filepath.Join(bdir, "scen", "s3")); err != nil {
+		die(2, "copy scen/s3: %v %s", err, out)
+	}
 }
 
 func must(err error) {
@@ -289,7 +299,11 @@ func buildScenario(b *Batch) *builtBin {
 		targs = append(targs, "-race")
 	}
 	targs = append(targs, "-tags", "vscratch", "./"+b.Pkg)
-	out, err = run(scratch, goEnv, "go", targs...)
+	gobin, gdir := "go", scratch
+	if b.Bubble {
+		gobin, gdir = "go1.26.8", filepath.Join(scratch, "b")
+	}
+	out, err = run(gdir, goEnv, gobin, targs...)
 	if err != nil {
 		die(2, "building scenario %s failed (exit 2: build trouble, not a violation): %v\n%s", b.Pkg, err, out)
 	}
@@ -314,7 +328,12 @@ func workerEnv(b *Batch, prop string, extra ...string) []string {
 		os.MkdirAll(tmp, 0755)
 		env = append(env, "VW_FAMILY_DIR="+filepath.Join(verifDir, "family"), "VW_REPO_V2="+filepath.Join(repoDir, "v2"), "VW_TMP="+tmp)
 	}
-	env = append(env, "VW_SCEN="+b.Scen, "VW_CFG="+b.Cfg, "VW_PROP="+prop, "GOMAXPROCS=2")
+	env = append(env, "VW_SCEN="+b.Scen, "VW_CFG="+b.Cfg, "VW_PROP="+prop)
+	if b.Bubble {
+		env = append(env, "GOMAXPROCS=1", "GODEBUG=asyncpreemptoff=1")
+	} else {
+		env = append(env, "GOMAXPROCS=2")
+	}
 	return append(env, extra...)
 }
 
@@ -983,6 +1002,10 @@ func doDeterminism(prop string, spec *PropSpec, tier string, seed uint64) int {
 		var wg sync.WaitGroup
 		sem := make(chan struct{}, 8)
 		procs := []string{"1", "4", "16", "32"}
+		if b.Bubble {
+			// back end B is only claimed at one P: repeat the same setting instead
+			procs = []string{"1", "1", "1", "1"}
+		}
 		n := 0
 		for chunk := 0; chunk < 8; chunk++ {
 			for _, p := range procs {
@@ -995,10 +1018,13 @@ func doDeterminism(prop string, spec *PropSpec, tier string, seed uint64) int {
 					env := workerEnv(b, prop, "VW_MODE=search", fmt.Sprintf("VW_SEED=%d", seed), fmt.Sprintf("VERIF_SEED=%d", seed),
 						fmt.Sprintf("VW_FROM=%d", chunk*40), fmt.Sprintf("VW_TO=%d", chunk*40+40))
 					env = append(env, "GOMAXPROCS="+p)
+					if b.Bubble {
+						env = append(env, "GODEBUG=asyncpreemptoff=1")
+					}
 					wo := runWorker(bb.path, env, filepath.Join(scratch, fmt.Sprintf("det-%d-%d.json", bi, n)), 10*time.Minute)
 					h := "noresult"
 					if wo.res != nil {
-						h = wo.res.AllHash + fmt.Sprintf("/%d/%v", wo.res.Runs, wo.res.Viol != nil)
+						h = wo.res.AllHash + "/" + wo.res.OutHash + fmt.Sprintf("/%d/%v", wo.res.Runs, wo.res.Viol != nil)
 					}
 					mu.Lock()
 					if hashes[chunk] == nil {
@@ -1016,7 +1042,7 @@ func doDeterminism(prop string, spec *PropSpec, tier string, seed uint64) int {
 				fmt.Printf("NONDETERMINISTIC scenario=%s cfg=%q chunk=%d hashes=%v\n", b.Scen, b.Cfg, chunk, m)
 			}
 		}
-		fmt.Printf("determinism scenario=%s cfg=%q: %d processes (GOMAXPROCS 1/4/16/32 x 8 seed chunks of 40 runs), divergent chunks=%d\n", b.Scen, b.Cfg, n, bad)
+		fmt.Printf("determinism scenario=%s cfg=%q: %d processes (GOMAXPROCS %v x 8 seed chunks of 40 runs; schedule-hash and output-digest compared), divergent chunks so far=%d\n", b.Scen, b.Cfg, n, procs, bad)
 	}
 	if bad > 0 {
 		return 2
